@@ -20,6 +20,7 @@ import (
 	"fmt"
 	"go/ast"
 	"go/constant"
+	"go/parser"
 	"go/token"
 	"go/types"
 	"os"
@@ -814,6 +815,8 @@ func main() {
 		os.Exit(1)
 	}
 
+	loaderRegs, skipsZero := extractLoader(genDir)
+
 	unguarded := 0
 	for _, s := range sites {
 		if s.Guard == 0 {
@@ -826,7 +829,9 @@ func main() {
 			"panic_sites": len(sites), "panic_sites_unguarded": unguarded, "string_lists": len(lists), "deletes": len(deletes),
 			"fieldval_null_object_absent": nullObjAbsent, "migrate_nil_document_guard": nilDocGuard,
 			"unknown_functions": unknownFns,
+			"loader_port_registrations": len(loaderRegs), "loader_addports_skips_zero": skipsZero,
 		},
+		"loader_port_registrations": loaderRegs,
 		"step_table": table, "accesses": accesses, "stamps": stamps, "panic_sites": sites, "string_lists": lists, "deletes": deletes,
 		"guards": guardNames,
 	}
@@ -1104,4 +1109,264 @@ func hasNilDocGuard(fn *fnInfo) bool {
 	}
 
 	return found
+}
+
+
+// ---------------------------------------------------------------- the loader's port check
+
+type portReg struct {
+	Helper  int    `json:"via_addPorts"` // 1: addPorts(uc, …); 0: uc.Add(…) directly
+	Checker int    `json:"checker"`      // 0 tcp, 1 udp, 9 unknown
+	Guard   int    `json:"guard"`        // 0 none, 1 `if config.TLS.Enabled`, 9 another condition
+	Field   int    `json:"field"`        // 0 http port, 1 dns port, 2 https, 3 dot, 4 dnscrypt, 5 doq, 99 other
+	Expr    string `json:"expr"`
+	Line    int    `json:"line"`
+}
+
+func exprStr(e ast.Expr) string {
+	switch x := e.(type) {
+	case *ast.Ident:
+		return x.Name
+	case *ast.SelectorExpr:
+		return exprStr(x.X) + "." + x.Sel.Name
+	case *ast.CallExpr:
+		return exprStr(x.Fun) + "()"
+	case *ast.UnaryExpr:
+		return x.Op.String() + exprStr(x.X)
+	case *ast.StarExpr:
+		return "*" + exprStr(x.X)
+	case *ast.ParenExpr:
+		return exprStr(x.X)
+	}
+
+	return "?"
+}
+
+// extractLoader reads validateConfig and addPorts of internal/home/config.go
+// (syntax only) and writes lean/AGH/Gen/C13Loader.lean: which port fields
+// reach which uniqueness check, through the zero-skipping helper or not, and
+// under which condition.
+func extractLoader(genDir string) (regs []portReg, skipsZero bool) {
+	path := filepath.Join(load.Repo(), "internal", "home", "config.go")
+	lfset := token.NewFileSet()
+	f, err := parser.ParseFile(lfset, path, nil, 0)
+	if err != nil {
+		fmt.Fprintf(os.Stderr, "extract c13: %v\n", err)
+		os.Exit(1)
+	}
+	ldie := func(pos token.Pos, format string, args ...any) {
+		p := lfset.Position(pos)
+		fmt.Fprintf(os.Stderr, "extract c13: %s:%d: %s\n", p.Filename, p.Line, fmt.Sprintf(format, args...))
+		os.Exit(1)
+	}
+
+	var validate, addPorts *ast.FuncDecl
+	for _, d := range f.Decls {
+		if fd, ok := d.(*ast.FuncDecl); ok && fd.Recv == nil {
+			switch fd.Name.Name {
+			case "validateConfig":
+				validate = fd
+			case "addPorts":
+				addPorts = fd
+			}
+		}
+	}
+	if validate == nil || validate.Body == nil {
+		fmt.Fprintf(os.Stderr, "extract c13: %s: func validateConfig not found\n", path)
+		os.Exit(1)
+	}
+
+	// addPorts: `for _, p := range ports { if p != 0 { uc.Add(p) } }`
+	if addPorts != nil && addPorts.Body != nil {
+		ast.Inspect(addPorts.Body, func(n ast.Node) bool {
+			rs, ok := n.(*ast.RangeStmt)
+			if !ok || len(rs.Body.List) != 1 {
+				return true
+			}
+			ifs, ok := rs.Body.List[0].(*ast.IfStmt)
+			if !ok || ifs.Else != nil || len(ifs.Body.List) != 1 {
+				return true
+			}
+			be, ok := ifs.Cond.(*ast.BinaryExpr)
+			v, _ := rs.Value.(*ast.Ident)
+			if !ok || be.Op != token.NEQ || v == nil || exprStr(be.X) != v.Name || exprStr(be.Y) != "0" {
+				if bl, isLit := be.Y.(*ast.BasicLit); !(ok && be.Op == token.NEQ && v != nil && exprStr(be.X) == v.Name && isLit && bl.Value == "0") {
+					return true
+				}
+			}
+			if es, isExpr := ifs.Body.List[0].(*ast.ExprStmt); isExpr {
+				if call, isCall := es.X.(*ast.CallExpr); isCall && strings.HasSuffix(exprStr(call.Fun), ".Add") {
+					skipsZero = true
+				}
+			}
+
+			return true
+		})
+	}
+
+	checkers := map[string]int{} // variable -> 0 tcp / 1 udp
+	tlsAlias := map[string]bool{} // variables holding &config.TLS / config.TLS
+
+	fieldID := func(e ast.Expr) (int, string) {
+		// tcpPort(X) / udpPort(X)
+		if call, ok := e.(*ast.CallExpr); ok && len(call.Args) == 1 {
+			if id, isID := call.Fun.(*ast.Ident); isID && (id.Name == "tcpPort" || id.Name == "udpPort") {
+				e = call.Args[0]
+			}
+		}
+		s := exprStr(e)
+		for a := range tlsAlias {
+			if strings.HasPrefix(s, a+".") {
+				s = "config.TLS." + strings.TrimPrefix(s, a+".")
+			}
+		}
+		switch s {
+		case "config.HTTPConfig.Address.Port()":
+			return 0, s
+		case "config.DNS.Port":
+			return 1, s
+		case "config.TLS.PortHTTPS":
+			return 2, s
+		case "config.TLS.PortDNSOverTLS":
+			return 3, s
+		case "config.TLS.PortDNSCrypt":
+			return 4, s
+		case "config.TLS.PortDNSOverQUIC":
+			return 5, s
+		}
+
+		return 99, s
+	}
+
+	var walk func(stmts []ast.Stmt, guard int)
+	noteAssign := func(as *ast.AssignStmt) {
+		if len(as.Lhs) != 1 || len(as.Rhs) != 1 {
+			return
+		}
+		lhs, ok := as.Lhs[0].(*ast.Ident)
+		if !ok {
+			return
+		}
+		switch rhs := as.Rhs[0].(type) {
+		case *ast.CompositeLit:
+			t := exprStr(rhs.Type)
+			if ix, isIx := rhs.Type.(*ast.IndexExpr); isIx {
+				t = exprStr(ix.X) + "[" + exprStr(ix.Index) + "]"
+			}
+			switch t {
+			case "aghalg.UniqChecker[tcpPort]":
+				checkers[lhs.Name] = 0
+			case "aghalg.UniqChecker[udpPort]":
+				checkers[lhs.Name] = 1
+			}
+		default:
+			s := exprStr(as.Rhs[0])
+			if s == "&config.TLS" || s == "config.TLS" {
+				tlsAlias[lhs.Name] = true
+			}
+		}
+	}
+	record := func(call *ast.CallExpr, helper int, ucName string, args []ast.Expr, guard int) {
+		ck, known := checkers[ucName]
+		if !known {
+			ck = 9
+		}
+		for _, a := range args {
+			id, s := fieldID(a)
+			regs = append(regs, portReg{Helper: helper, Checker: ck, Guard: guard, Field: id, Expr: s,
+				Line: lfset.Position(call.Pos()).Line})
+		}
+	}
+	walk = func(stmts []ast.Stmt, guard int) {
+		for _, st := range stmts {
+			switch s := st.(type) {
+			case *ast.AssignStmt:
+				noteAssign(s)
+			case *ast.ExprStmt:
+				call, ok := s.X.(*ast.CallExpr)
+				if !ok {
+					continue
+				}
+				switch fn := call.Fun.(type) {
+				case *ast.Ident:
+					if fn.Name == "addPorts" {
+						if len(call.Args) < 1 {
+							ldie(call.Pos(), "addPorts without a checker")
+						}
+						record(call, 1, exprStr(call.Args[0]), call.Args[1:], guard)
+					}
+				case *ast.SelectorExpr:
+					if _, isChecker := checkers[exprStr(fn.X)]; isChecker {
+						switch fn.Sel.Name {
+						case "Add":
+							record(call, 0, exprStr(fn.X), call.Args, guard)
+						default:
+							ldie(call.Pos(), "unsupported use of a UniqChecker: %s", fn.Sel.Name)
+						}
+					}
+				}
+			case *ast.IfStmt:
+				if as, ok := s.Init.(*ast.AssignStmt); ok {
+					noteAssign(as)
+				}
+				g := 9
+				c := exprStr(s.Cond)
+				for a := range tlsAlias {
+					if c == a+".Enabled" {
+						c = "config.TLS.Enabled"
+					}
+				}
+				if c == "config.TLS.Enabled" {
+					g = 1
+				}
+				inner := g
+				if guard != 0 {
+					inner = 9
+				}
+				// conditions that only test an error (`err != nil`, `err = …; err != nil`) guard nothing here
+				walk(s.Body.List, inner)
+				switch e := s.Else.(type) {
+				case *ast.BlockStmt:
+					walk(e.List, 9)
+				case *ast.IfStmt:
+					walk([]ast.Stmt{e}, guard)
+				}
+			case *ast.ForStmt, *ast.RangeStmt, *ast.SwitchStmt, *ast.TypeSwitchStmt, *ast.GoStmt, *ast.DeferStmt:
+				// a registration inside any of these would be missed
+				ast.Inspect(st, func(n ast.Node) bool {
+					if call, ok := n.(*ast.CallExpr); ok {
+						fs := exprStr(call.Fun)
+						if fs == "addPorts" || strings.HasSuffix(fs, ".Add") {
+							ldie(call.Pos(), "port registration inside an unsupported statement")
+						}
+					}
+
+					return true
+				})
+			}
+		}
+	}
+	walk(validate.Body.List, 0)
+
+	leanPath := filepath.Join(genDir, "C13Loader.lean")
+	_ = os.Remove(leanPath)
+	var sb strings.Builder
+	sb.WriteString("/- GENERATED by /verif/extract/cmd/c13 from internal/home/config.go — do not edit. -/\n")
+	sb.WriteString("namespace AGH.Gen.C13L\n\n")
+	sb.WriteString("/-- port registrations of `validateConfig`, in source order:\n")
+	sb.WriteString("    (1 through addPorts / 0 UniqChecker.Add directly, checker: 0 tcp 1 udp, guard: 0 none 1 `if config.TLS.Enabled` 9 other,\n")
+	sb.WriteString("     field: 0 http port, 1 dns.port, 2 port_https, 3 port_dns_over_tls, 4 port_dnscrypt, 5 port_dns_over_quic, 99 other) -/\n")
+	sb.WriteString("def portRegs : List (Nat × Nat × Nat × Nat) := [\n")
+	for i, r := range regs {
+		fmt.Fprintf(&sb, "  (%d, %d, %d, %d)%s  -- config.go:%d %s\n", r.Helper, r.Checker, r.Guard, r.Field, comma(i, len(regs)), r.Line, r.Expr)
+	}
+	sb.WriteString("]\n\n")
+	fmt.Fprintf(&sb, "/-- `addPorts` skips zero ports: `if p != 0 { uc.Add(p) }` -/\ndef addPortsSkipsZero : Bool := %v\n\n", skipsZero)
+	sb.WriteString("end AGH.Gen.C13L\n")
+	if err = os.WriteFile(leanPath, []byte(sb.String()), 0o644); err != nil {
+		fmt.Fprintln(os.Stderr, err)
+		os.Exit(1)
+	}
+
+	return regs, skipsZero
 }
